@@ -223,23 +223,27 @@ class Check:
 
     def gen(self, seed, tier):
         rnd = random.Random(f'C05/{seed}')
-        cells = list(self.cells())
         limit = 3500 if tier == 'quick' else MAX_N
-        for _ in range(200):
-            kind, vi, e0, dt = rnd.choice(cells)
-            ent = (self.table or {}).get(table_key(kind, vi, e0, dt))
-            if ent is None:
-                continue
-            if ent.get('status') == 'slow' and kind != 'ukf':
-                continue        # converges, but needs more samples than the calibration cap: not exercised
-            if ent.get('status') != 'ok':
-                # cells where the filter breaks down on the repaired tree: keep exercising them (known findings)
-                if rnd.random() < 0.15:
+        # every filter gets the same share of the runs: pick the class first, then one of its admissible cells
+        for _ in range(400):
+            kind = rnd.choice(sorted(VARIANTS))
+            cells = [(vi, e0, dt) for k, vi, e0, dt in self.cells() if k == kind]
+            rnd.shuffle(cells)
+            for vi, e0, dt in cells:
+                ent = (self.table or {}).get(table_key(kind, vi, e0, dt))
+                if ent is None:
+                    continue
+                if ent.get('status') == 'slow' and kind != 'ukf':
+                    continue        # converges, but needs more samples than the calibration cap: not exercised
+                if ent.get('status') != 'ok':
+                    return self.make_scenario(rnd, kind, vi, e0, dt)   # breaks down on the repaired tree: known findings
+                if self.run_length(kind, vi, e0, dt) <= limit:
                     return self.make_scenario(rnd, kind, vi, e0, dt)
-                continue
-            if self.budget(kind, vi, e0, dt) + 200 <= limit:
-                return self.make_scenario(rnd, kind, vi, e0, dt)
         raise RuntimeError('no admissible cell (is c05_table.json present?)')
+
+    def run_length(self, kind, vi, e0, dt):
+        """History length of a cell: the 'stays there' clause (e0 = 0) needs no budget."""
+        return 1500 if e0 == 0 else self.budget(kind, vi, e0, dt) + 200
 
     def budget(self, kind, vi, e0, dt):
         """Samples allowed to settle: 3x the largest pinned settle index of this configuration for any initial
@@ -272,7 +276,7 @@ class Check:
         tol = tol_for(scn['kind'], scn['params'], scn['dt'])
         if ent.get('status') == 'ok':
             budget = self.budget(scn['kind'], scn['variant'], scn['e0_deg'], scn['dt'])
-            n = scn.get('n') or budget + 200
+            n = scn.get('n') or self.run_length(scn['kind'], scn['variant'], scn['e0_deg'], scn['dt'])
         else:
             budget = None
             n = scn.get('n') or 3000
